@@ -24,12 +24,77 @@ type Attr struct {
 	Strs   []string  `json:"strs,omitempty"`
 	T      *TJ       `json:"t,omitempty"`
 	TEnc   string    `json:"tenc,omitempty"` // raw | typed
+	// bit patterns of F / Floats (authoritative when present: JSON cannot carry NaN, Inf or -0)
+	FBits      uint32   `json:"f_bits,omitempty"`
+	FloatsBits []uint32 `json:"floats_bits,omitempty"`
+}
+
+func finite32(v float32) float32 {
+	if v != v || v > math.MaxFloat32 || v < -math.MaxFloat32 {
+		return 0
+	}
+	return v
+}
+
+// Key is a collision-free textual key of the attribute (bit patterns for floats).
+func (a Attr) Key() string {
+	t := ""
+	if a.T != nil {
+		t = MustJSON(a.T)
+	}
+	return fmt.Sprintf("%s|%s|%d|%v|%x|%x|%q|%q|%s|%s", a.Name, a.Kind, a.I, a.Ints, a.fbits(), a.floatsBits(), a.S, a.Strs, t, a.TEnc)
+}
+
+func AttrsKey(as []Attr) string {
+	k := ""
+	for _, a := range as {
+		k += a.Key() + ";"
+	}
+	return k
+}
+
+// Float / FloatList: the attribute's value(s), exact (from the bit patterns when recorded).
+func (a Attr) Float() float32 { return math.Float32frombits(a.fbits()) }
+func (a Attr) FloatList() []float32 {
+	b := a.floatsBits()
+	out := make([]float32, len(b))
+	for i, x := range b {
+		out[i] = math.Float32frombits(x)
+	}
+	return out
+}
+
+func (a Attr) fbits() uint32 {
+	if a.FBits != 0 {
+		return a.FBits
+	}
+	return math.Float32bits(a.F)
+}
+
+func (a Attr) floatsBits() []uint32 {
+	if a.FloatsBits != nil {
+		return a.FloatsBits
+	}
+	out := make([]uint32, len(a.Floats))
+	for i, f := range a.Floats {
+		out[i] = math.Float32bits(f)
+	}
+	return out
 }
 
 func AInt(name string, v int64) Attr         { return Attr{Name: name, Kind: "int", I: v} }
 func AInts(name string, v ...int64) Attr     { return Attr{Name: name, Kind: "ints", Ints: v} }
-func AFloat(name string, v float32) Attr     { return Attr{Name: name, Kind: "float", F: v} }
-func AFloats(name string, v ...float32) Attr { return Attr{Name: name, Kind: "floats", Floats: v} }
+func AFloat(name string, v float32) Attr {
+	return Attr{Name: name, Kind: "float", F: finite32(v), FBits: math.Float32bits(v)}
+}
+func AFloats(name string, v ...float32) Attr {
+	a := Attr{Name: name, Kind: "floats"}
+	for _, f := range v {
+		a.Floats = append(a.Floats, finite32(f))
+		a.FloatsBits = append(a.FloatsBits, math.Float32bits(f))
+	}
+	return a
+}
 func AStr(name string, v string) Attr        { return Attr{Name: name, Kind: "string", S: v} }
 func AStrs(name string, v ...string) Attr    { return Attr{Name: name, Kind: "strings", Strs: v} }
 func ATensor(name string, t *ref.T, enc string) Attr {
@@ -47,10 +112,12 @@ func (a Attr) Proto() *onnx.AttributeProto {
 		p.Ints = a.Ints
 	case "float":
 		p.Type = onnx.AttributeProto_FLOAT
-		p.F = a.F
+		p.F = math.Float32frombits(a.fbits())
 	case "floats":
 		p.Type = onnx.AttributeProto_FLOATS
-		p.Floats = a.Floats
+		for _, b := range a.floatsBits() {
+			p.Floats = append(p.Floats, math.Float32frombits(b))
+		}
 	case "string":
 		p.Type = onnx.AttributeProto_STRING
 		p.S = []byte(a.S)
